@@ -13,7 +13,7 @@ import z3
 
 from pyvc.prop import Unit, Bounded
 from pyvc.values import strval, SV, STR, INT, BOOL, TNT, TSeq, TEnum, TAbs, Ty, term, is_sym, fresh, fresh_term
-from pyvc.execu import HObj, NTVal, PyRaise, SymIter
+from pyvc.execu import Unsupported, HObj, NTVal, PyRaise, SymIter
 from pyvc import models as M
 
 LEVEL = "other"
@@ -84,8 +84,15 @@ def typeset_term(ex, v):
             NTy = TEnum(n.NoteType)
             (head,) = [x for x in v if x is not n.NoteType.TAIL]
             return f["typeset"](NTy.lift(head), NTy.lift(n.NoteType.TAIL))
-        raise ValueError(f"unexpected concrete type set {v}")
-    raise ValueError(v)
+        # any other concrete set: its own constant, different from the documented default and from every other set seen
+        nm = "TYPES_" + "_".join(sorted(x.name for x in v))
+        ct = z3.Const(nm, TypeSetSort)
+        seen = ex.ghost.setdefault("typesets", {"DEFAULT_NOTE_TYPES": f["default_types"]})
+        if nm not in seen:
+            seen[nm] = ct
+            ex.assume(z3.Distinct(*seen.values()) if len(seen) > 1 else z3.BoolVal(True), "different sets of note types are different values")
+        return ct
+    raise Unsupported(f"type set {v!r}")
 
 
 def group_contract(ex, args, kwargs):
@@ -416,9 +423,45 @@ class GroupVsStatement(Bounded):
 BOUNDED = [GroupVsStatement(k) for k in range(GroupVsStatement.PARTS)]
 
 
+def counters_with_defaults():
+    """the counting functions with their documented defaults on streams that carry every note type: steps are beats with a
+    tap, hold head, roll head or lift; jumps / hands need two / three of them; mines singly"""
+    import itertools
+    n, g, c = G()
+    from simfile.timing import Beat
+    T = n.NoteType
+    counted = {T.TAP, T.HOLD_HEAD, T.ROLL_HEAD, T.LIFT}
+    for combo in itertools.product(list(T), repeat=3):
+        for beats in ((0, 0, 0), (0, 0, 1), (0, 1, 2)):
+            stream = [n.Note(Beat(b), col, t) for col, (b, t) in enumerate(zip(beats, combo))]
+            rows = {}
+            for x in stream:
+                rows.setdefault(x.beat, []).append(x)
+            per_row = [sum(1 for x in r if x.note_type in counted) for r in rows.values()]
+            want = dict(count_steps=sum(1 for k in per_row if k >= 1), count_jumps=sum(1 for k in per_row if k >= 2),
+                        count_hands=sum(1 for k in per_row if k >= 3), count_mines=sum(1 for x in stream if x.note_type == T.MINE))
+            for fn_, exp in want.items():
+                try:
+                    got = getattr(c, fn_)(stream)
+                except Exception as e:
+                    got = f"raised {type(e).__name__}"
+                if got != exp:
+                    return dict(input=dict(stream=[repr(x) for x in stream], function=fn_ + " with its default options"),
+                                detail=f"{fn_} = {got!r}; the documentation counts {exp}")
+    return None
+
+
 def witness_search(tier, seed):
+    w = counters_with_defaults()
+    if w:
+        return w
     for k in range(GroupVsStatement.PARTS):
         r = GroupVsStatement(k).run("quick", seed)
         if r["failures"]:
             return r["failures"][0]
     return None
+
+
+# tables the statement pins down by value (props/constants_common.py)
+from props.constants_common import ClosedConstants   # noqa: E402
+UNITS = list(UNITS) + [ClosedConstants('group-notes-default-types', 'count-default-types')]
